@@ -252,6 +252,12 @@ def c03_cells():
                             c = {"A": A, "B": B, "facet": f, "la": la, "lb": lb, "n": nlat, "pbc_z": pbc_z, "noise": noise, "registry": reg}
                             c["key"] = "%s/%s|%s|L%d+%d|%dx%d|%s|n%.2f|%s" % (A, B, f, la, lb, nlat, nlat, "TTT" if pbc_z else "TTF", noise, reg)
                             cells.append(c)
+                            if pbc_z:
+                                # periodic superlattice A/B/A/B... without vacuum: the stacking direction is periodic and
+                                # its period may be short (second interface at the same spacing as the first)
+                                c2 = dict(c, vac=False)
+                                c2["key"] = c["key"] + "|novac"
+                                cells.append(c2)
     return cells
 
 
@@ -305,6 +311,8 @@ def build_c03(cell, delta=0.25, vacuum=9.0):
     sb.set_positions(posb)
     both = sa + sb
     height = posb[:, 2].max() - za.min()
+    if not cell.get("vac", True):
+        vacuum = dz
     cell3 = np.array([ca[0], ca[1], [0, 0, height + vacuum]])
     both.set_cell(cell3)
     both.set_pbc([True, True, bool(cell["pbc_z"])])
